@@ -1,11 +1,11 @@
 #!/usr/bin/env python3
 """maintenance: print seeded-corpus statistics used in DESIGN.md §18"""
 import glob, json, os
-r = {1: [0, 0], 2: [0, 0]}
+r = {1: [0, 0], 2: [0, 0], 3: [0, 0]}
 for p in sorted(glob.glob('/verif/seeded/*/meta.json')):
     d = json.load(open(p))
-    rd = 2 if 'r2' in os.path.basename(os.path.dirname(p)) else 1
+    bn = os.path.basename(os.path.dirname(p)); rd = 3 if 'r3' in bn else 2 if 'r2' in bn else 1
     first = 'first run' in (d.get('detected_by') or '')
     r[rd][0 if first else 1] += 1
-for rd in (1, 2):
+for rd in (1, 2, 3):
     print("round %d: %d seeds, %d reported by the rules as they stood, %d needed a new/sharper rule" % (rd, sum(r[rd]), r[rd][0], r[rd][1]))
